@@ -49,6 +49,86 @@ pub struct CallLog {
     pub rejected: u32,
 }
 
+impl CallLog {
+    pub fn new() -> CallLog {
+        CallLog { outcomes: vec![], excluded_size: 0, accepted: 0, rejected_past_header: 0, rejected: 0 }
+    }
+}
+
+impl Default for CallLog {
+    fn default() -> Self {
+        Self::new()
+    }
+}
+
+/// Byte serialisation of a history (the libFuzzer input format and the "bytes" replay format):
+/// byte 0 = decoder options (low two bits); then per step a tag byte (tag % 4: 0 or 3 = picture in
+/// its own reader, 1 = stream with 1 + (tag >> 2) % 4 calls, 2 = clean-up) followed, for data
+/// steps, by a little-endian u16 length and that many bytes (clipped to what is left).
+pub fn history_from_bytes(data: &[u8]) -> (u8, Vec<Step>) {
+    if data.is_empty() {
+        return (0, vec![]);
+    }
+    let opts = data[0] & 3;
+    let mut i = 1;
+    let mut steps = Vec::new();
+    while i < data.len() && steps.len() < 8 {
+        let tag = data[i];
+        i += 1;
+        match tag % 4 {
+            2 => steps.push(Step::Cleanup),
+            k => {
+                if i + 2 > data.len() {
+                    break;
+                }
+                let len = u16::from_le_bytes([data[i], data[i + 1]]) as usize;
+                i += 2;
+                let end = (i + len).min(data.len());
+                let b = data[i..end].to_vec();
+                i = end;
+                if k == 1 {
+                    steps.push(Step::Stream(b, 1 + ((tag >> 2) % 4) as usize));
+                } else {
+                    steps.push(Step::Decode(b));
+                }
+            }
+        }
+    }
+    (opts, steps)
+}
+
+pub fn history_to_bytes(opts: u8, steps: &[Step]) -> Vec<u8> {
+    let mut out = vec![opts & 3];
+    for s in steps.iter().take(8) {
+        match s {
+            Step::Cleanup => out.push(2),
+            Step::Decode(b) => {
+                out.push(0);
+                let n = b.len().min(65535);
+                out.extend_from_slice(&(n as u16).to_le_bytes());
+                out.extend_from_slice(&b[..n]);
+            }
+            Step::Stream(b, calls) => {
+                out.push(1 | ((((*calls).clamp(1, 4) - 1) as u8) << 2));
+                let n = b.len().min(65535);
+                out.extend_from_slice(&(n as u16).to_le_bytes());
+                out.extend_from_slice(&b[..n]);
+            }
+        }
+    }
+    out
+}
+
+/// Strict replay of a serialised history (used for fuzzer artifacts and "bytes" replay files).
+pub fn replay_bytes(data: &[u8]) -> Verdict {
+    let (opts, steps) = history_from_bytes(data);
+    let mut log = CallLog::new();
+    match run_history(opts, &steps, &mut log) {
+        Err(m) => Verdict::fail(m),
+        Ok(()) => Verdict::pass(log.accepted > 0 || log.rejected_past_header > 0, fnv64(data)),
+    }
+}
+
 /// Execute a history on a fresh decoder. Returns Err(description) on a panic.
 pub fn run_history(opts: u8, steps: &[Step], log: &mut CallLog) -> Result<(), String> {
     let mut st = H263State::new(options_from_bits(opts));
@@ -174,7 +254,7 @@ fn describe(opts: u8, steps: &[Step]) -> Value {
 fn history_case(g: &mut Gen, cfg: &PicCfg) -> Verdict {
     let (opts, steps, mut labels) = gen_history(g, cfg);
     g.describe(|| describe(opts, &steps));
-    let mut log = CallLog { outcomes: vec![], excluded_size: 0, accepted: 0, rejected_past_header: 0, rejected: 0 };
+    let mut log = CallLog::new();
     match run_history(opts, &steps, &mut log) {
         Err(m) => Verdict::fail(m),
         Ok(()) => {
@@ -224,6 +304,17 @@ pub fn run(ctx: &Ctx) -> i32 {
     stop_watchdog();
     let mut extra = Map::new();
     extra.insert("max_area_samples".into(), json!(MAX_AREA));
+    if ctx.tier == Tier::Thorough && reports.iter().all(|r| r.failure.is_none()) {
+        // coverage-guided engine: libFuzzer on the same history format, seeded with generator
+        // output, plus one campaign from an empty corpus
+        let seeds = seed_corpus(ctx, &cfg, 600);
+        let rep = fuzz_campaign(
+            ctx,
+            &FuzzPlan { target: "decode_history", procs: ctx.threads.min(16), runs: 600_000, max_len: 8192, timeout_s: 60, seeds },
+            &|bytes| replay_bytes(bytes),
+        );
+        reports.push(rep);
+    }
     finish(
         ctx,
         reports,
@@ -239,7 +330,22 @@ pub fn run(ctx: &Ctx) -> i32 {
     )
 }
 
+/// Seed corpus for the fuzzer: histories from the structured generator, serialised.
+fn seed_corpus(ctx: &Ctx, cfg: &PicCfg, n: usize) -> Vec<Vec<u8>> {
+    let tapes = generate_tapes(ctx.seed ^ 0xF0CC, n, 6144);
+    tapes
+        .iter()
+        .map(|t| {
+            let (opts, steps, _) = gen_history(&mut Gen::new(t), cfg);
+            history_to_bytes(opts, &steps)
+        })
+        .collect()
+}
+
 pub fn replay(suite: &str, case: &Value) -> Option<Verdict> {
+    if case["kind"] == "bytes" {
+        return Some(replay_bytes(&crate::bits::unhex(case["hex"].as_str()?)));
+    }
     match suite {
         "hostile_histories" => {
             let tape = super::tape_of(case)?;
